@@ -1,2 +1,234 @@
--- stub: replaced by the raftwal engine driver
-def main : IO Unit := pure ()
+/-
+Line-protocol driver for the raft-WAL engine (C21: WAL-backed raft storage under process
+crashes; C36: WAL segment cleanup).  Reply format: `<model>\t<spec>`.
+-/
+import Driver.Lib
+import NoKVModel.Base.Cfg
+import NoKVModel.Raftwal.Store
+import NoKVModel.Raftwal.Segments
+
+open NoKV NoKV.Raftwal Driver
+
+structure DSt where
+  cfg : Cfg := Cfg.good
+  s : St := {}
+  dead : Bool := false
+  -- specification side (C21): the records of the calls that returned ok, the truncation
+  -- point the group asked for, and whether the history is still one raft could produce
+  hist : List Rec := []
+  trunc : Nat := 0
+  valid : Bool := true
+  -- C36
+  scfg : Seg.SCfg := Seg.SCfg.good
+  ss : Seg.S := {}
+  puts : List (Nat × Nat) := []      -- spec: every acknowledged put (key, seq)
+  rlast : List (Nat × Nat) := [(1, 0), (2, 0)]   -- spec: appended entries per group
+
+def setCfg (st : DSt) (kv : String) : Option DSt :=
+  match kv.splitOn "=" with
+  | [k, v] =>
+    match k with
+    | "raftwal.flushOnAppend" => do let b ← boolOfString? v; pure { st with cfg := { st.cfg with flushOnAppend := b } }
+    | "seg.guardUntruncated" => do let b ← boolOfString? v; pure { st with scfg := { st.scfg with guardUntruncated := b } }
+    | "seg.wdChecksFlushed" => do let b ← boolOfString? v; pure { st with scfg := { st.scfg with wdChecksFlushed := b } }
+    | "seg.replaySeedsTrunc" => do let b ← boolOfString? v; pure { st with scfg := { st.scfg with replaySeedsTrunc := b } }
+    -- operator facts the model is not parameterised by: only the modelled value is accepted
+    | "seg.canRemoveOps" => if v == "ge,ge" then some st else none
+    | "seg.wdCandidateOp" => if v == "lt" then some st else none
+    | "seg.recoveryRule" => if v == "le:true" then some st else none
+    | "raftwal.syncFlushes" => do let b ← boolOfString? v; pure { st with cfg := { st.cfg with syncFlushes := b } }
+    | _ => none
+  | _ => none
+
+def parseItems? (s : String) : Option (List Item) :=
+  if s == "-" then some [] else
+  (s.splitOn ",").mapM fun p =>
+    match p.splitOn ":" with
+    | [a, b] => do let a ← natOf? a; let b ← natOf? b; pure (a, b)
+    | _ => none
+
+/-- entries from `hi` down to `lo` (inclusive), `idx:term:data;` each -/
+def descLog (get : Nat → Option Item) (lo : Nat) : Nat → String
+  | 0 => ""
+  | hi + 1 =>
+    if hi + 1 < lo then "" else
+    (match get (hi + 1) with
+     | some it => s!"{hi + 1}:{it.1}:{it.2};"
+     | none => s!"{hi + 1}:?;") ++ descLog get lo hi
+
+def stateStr (m : Mem) : String :=
+  s!"hs={m.hs.term}/{m.hs.vote}/{m.hs.commit} snap={m.snapIdx}/{m.snapTerm} last={m.lastIndex} log=" ++
+    descLog m.entry? m.firstIndex m.lastIndex ++ s!" first={m.firstIndex}"
+
+/-- abstract last index of a history -/
+def specLast : List Rec → Nat → Nat
+  | [], acc => acc
+  | .ents f items :: rs, acc => specLast rs (if items = [] then acc else f + items.length - 1)
+  | .snap i _ :: rs, acc => specLast rs (if i = 0 then acc else i)
+  | .hs _ :: rs, acc => specLast rs acc
+  | .other :: rs, acc => specLast rs acc
+
+def specSnap : List Rec → Nat × Nat → Nat × Nat
+  | [], acc => acc
+  | .snap i t :: rs, acc => specSnap rs (if i = 0 then acc else (i, t))
+  | .ents _ _ :: rs, acc => specSnap rs acc
+  | .hs _ :: rs, acc => specSnap rs acc
+  | .other :: rs, acc => specSnap rs acc
+
+def specStateStr (st : DSt) : String :=
+  if !st.valid then "*" else
+  let h := ((hsOf st.hist).getLast?).getD {}
+  let sn := specSnap st.hist (0, 0)
+  let last := specLast st.hist 0
+  s!"hs={h.term}/{h.vote}/{h.commit} snap={sn.1}/{sn.2} last={last} log=" ++
+    descLog (specLog st.hist) (st.trunc + 1) last ++ "*"
+
+/-- is the call one a raft node could issue after the history so far?  (computed from the
+abstract history only: last index, truncation point, last snapshot) -/
+def callValid (st : DSt) : Call → Bool
+  | .hs _ => true
+  | .app f items => items.isEmpty || (decide (st.trunc < f) && decide (f ≤ specLast st.hist 0 + 1))
+  | .snap i _ => i == 0 || decide ((specSnap st.hist (0, 0)).1 < i)
+  | .compact _ _ => true
+
+def recOfCall : Call → Option Rec
+  | .hs h => if h.term = 0 ∧ h.vote = 0 ∧ h.commit = 0 then none else some (.hs h)
+  | .app f items => if items = [] then none else some (.ents f items)
+  | .snap i t => if i = 0 then none else some (.snap i t)
+  | .compact _ _ => none
+
+/-- specification side of a call: a valid call must succeed and is then part of the history -/
+def specCall (st : DSt) (cl : Call) : DSt × String :=
+  let v := st.valid && callValid st cl
+  if !v then ({ st with valid := false }, "*") else
+  match cl with
+  | .compact a r =>
+    let target := a - r
+    let tr := if r ≠ 0 ∧ a ≠ 0 ∧ r < a ∧ st.trunc < target ∧ target ≤ specLast st.hist 0 then target else st.trunc
+    ({ st with trunc := tr }, "*")
+  | _ =>
+    let hist := match recOfCall cl with
+      | some r => st.hist ++ [r]
+      | none => st.hist
+    let tr := match cl with
+      | .snap i _ => if i ≠ 0 then i else st.trunc
+      | _ => st.trunc
+    ({ st with hist := hist, trunc := tr }, "ok")
+
+def runCall (st : DSt) (cl : Call) : DSt × String :=
+  let (st1, spec) := specCall st cl
+  if st.dead then (st1, "dead\t" ++ spec) else
+  let s' := doCall st.cfg st.s cl
+  let out := if s'.ok then "ok" else (match cl with
+    | .app _ _ => "panic"
+    | _ => "err")
+  ({ st1 with s := s' }, out ++ "\t" ++ spec)
+
+def bg (st : DSt) (e : Ev) : DSt × String :=
+  if st.dead then (st, "dead\t*") else ({ st with s := step st.cfg st.s e }, "ok\t*")
+
+def doCrash (st : DSt) (s0 : St) : DSt × String :=
+  let spec := if st.valid then "ok" else "*"
+  if st.dead then (st, "dead\t" ++ spec) else
+  if !validPtr s0.segsD s0.ptr then ({ st with dead := true }, "err:ptr\t" ++ spec)
+  else if (replay s0.durable).isNone then ({ st with dead := true }, "err:replay\t" ++ spec)
+  else ({ st with s := crash s0 }, "ok\t" ++ spec)
+
+def segsStr (s : Seg.S) : String :=
+  let ids := Seg.segIds s
+  if ids.isEmpty then "segs=-" else "segs=" ++ ",".intercalate (ids.map toString)
+
+def specGet (puts : List (Nat × Nat)) (k : Nat) : String :=
+  match ((puts.filter (·.1 == k)).map (·.2)).getLast? with
+  | some v => s!"v{v}"
+  | none => "none"
+
+def stepSeg (st : DSt) (toks : List String) : DSt × String :=
+  match toks with
+  | ["s.put", k] =>
+    match natOf? k with
+    | some k =>
+      let s' := Seg.put st.ss k
+      ({ st with ss := s', puts := st.puts ++ [(k, s'.seq)] }, "ok\tok")
+    | none => (st, "bad-op")
+  | ["s.get", k] =>
+    match natOf? k with
+    | some k =>
+      let r := match Seg.get st.ss k with
+        | some v => s!"v{v}"
+        | none => "none"
+      (st, r ++ "\t" ++ specGet st.puts k)
+    | none => (st, "bad-op")
+  | ["s.rapp", g, n] =>
+    match natOf? g, natOf? n with
+    | some g, some n =>
+      let (s', out) := Seg.rapp st.ss g n
+      let rl := if out == "ok" then st.rlast.map (fun p => if p.1 == g then (p.1, p.2 + n) else p) else st.rlast
+      ({ st with ss := s', rlast := rl }, out ++ "\tok")
+    | _, _ => (st, "bad-op")
+  | ["s.rhs", g] =>
+    match natOf? g with
+    | some g => let (s', out) := Seg.rhs st.ss g; ({ st with ss := s' }, out ++ "\tok")
+    | none => (st, "bad-op")
+  | ["s.rtrunc", g, k] =>
+    match natOf? g, natOf? k with
+    | some g, some k => let (s', out) := Seg.rtrunc st.ss g k; ({ st with ss := s' }, out ++ "\t*")
+    | _, _ => (st, "bad-op")
+  | ["s.rstate", g] =>
+    match natOf? g with
+    | some g =>
+      let want := ((st.rlast.find? (·.1 == g)).map (·.2)).getD 0
+      let out := match st.ss.grps.find? (·.id == g) with
+        | some gr => if gr.openOK then s!"last={gr.last} first={gr.base + 1}" else "openfailed"
+        | none => "nogroup"
+      (st, out ++ "\t" ++ s!"last={want} *")
+    | none => (st, "bad-op")
+  | ["s.rotate"] =>
+    let s' := Seg.rotate st.scfg st.ss
+    ({ st with ss := s', puts := st.puts ++ [(0, s'.seq - 1), (0, s'.seq)] }, segsStr s' ++ "\t*")
+  | ["s.gate", b] =>
+    let s' := Seg.gate st.scfg st.ss (b == "closed")
+    ({ st with ss := s' }, segsStr s' ++ "\t*")
+  | ["s.watchdog"] =>
+    let s' := Seg.watchdog st.scfg st.ss
+    ({ st with ss := s' }, segsStr s' ++ "\t*")
+  | ["s.segs"] => (st, segsStr st.ss ++ "\t*")
+  | ["s.crash"] =>
+    let s' := Seg.crash st.scfg st.ss
+    ({ st with ss := s', puts := st.puts ++ [(0, s'.seq)] }, "ok " ++ segsStr s' ++ "\tok*")
+  | _ => (st, "bad-op")
+
+def step' (st : DSt) (toks : List String) : DSt × String :=
+  match toks with
+  | "cfg" :: kvs =>
+    match kvs.foldlM setCfg st with
+    | some st' => (st', "ok")
+    | none => (st, "bad-cfg")
+  | ["hs", t, v, c] =>
+    match natOf? t, natOf? v, natOf? c with
+    | some t, some v, some c => runCall st (.hs ⟨t, v, c⟩)
+    | _, _, _ => (st, "bad-op")
+  | ["app", f, items] =>
+    match natOf? f, parseItems? items with
+    | some f, some items => runCall st (.app f items)
+    | _, _ => (st, "bad-op")
+  | ["snap", i, t] =>
+    match natOf? i, natOf? t with
+    | some i, some t => runCall st (.snap i t)
+    | _, _ => (st, "bad-op")
+  | ["compact", a, r] =>
+    match natOf? a, natOf? r with
+    | some a, some r => runCall st (.compact a r)
+    | _, _ => (st, "bad-op")
+  | ["other"] => bg st .other
+  | ["sync"] => bg st .flush
+  | ["rotate"] => bg st .rotate
+  | ["send"] => bg st .send
+  | ["crash"] => doCrash st st.s
+  | ["close"] => doCrash st (flush st.s)
+  | ["state"] =>
+    if st.dead then (st, "dead\t" ++ specStateStr st) else (st, stateStr st.s.mem ++ "\t" ++ specStateStr st)
+  | t :: _ => if t.startsWith "s." then stepSeg st toks else (st, "bad-op")
+  | _ => (st, "bad-op")
+
+def main : IO Unit := Driver.loop ({} : DSt) step'
